@@ -37,7 +37,7 @@ pub fn lanes_of(id: &str) -> Vec<(&'static str, LaneFn)> {
         "C07" => vec![("trees", c07::trees), ("integers", c07::integers), ("nonminimal", c07::nonminimal), ("typed_trees", c07::typed_trees)],
         "C08" => vec![("generated", c08::generated), ("exhaustive", c08::exhaustive), ("mutated", c08::mutated), ("rejection", c08::rejection_classes)],
         "C09" => vec![("exhaustive_short", c09::exhaustive_short), ("exhaustive_meta", c09::exhaustive_meta), ("random", c09::random)],
-        "C10" => vec![("streams", c10::streams), ("search_collect", c10::search_collect), ("sync_streams", c10::sync_streams), ("paged_early_finish", c10::paged_early_finish), ("dropped_neighbour", c10::dropped_neighbour)],
+        "C10" => vec![("streams", c10::streams), ("search_collect", c10::search_collect), ("sync_streams", c10::sync_streams), ("paged_early_finish", c10::paged_early_finish), ("dropped_neighbour", c10::dropped_neighbour), ("lagging_reader", c10::lagging_reader)],
         "C11" => vec![("decoder", c11::decoder), ("driver", c11::driver), ("stack", c11::stack), ("starttls_garbage", c11::starttls_garbage), ("idle_connection", c11::idle_connection)],
         "C12" => vec![("timeouts", c12::timeouts), ("stalled_driver", c12::stalled_driver)],
         "C13" => vec![("histories", c13::histories), ("long_histories", c13::long_histories), ("tls_connections", c13::tls_connections), ("given_up_searches", c13::given_up_searches), ("dead_connection", c13::dead_connection)],
@@ -69,8 +69,28 @@ pub fn run(ctx: &Ctx, id: &str, only: Option<&str>) -> Vec<Value> {
             continue;
         }
         let t = std::time::Instant::now();
-        let rep = f(ctx);
-        let mut j = rep.to_json(name);
+        let mut j = if cfg!(miri) {
+            f(ctx).to_json(name)
+        } else {
+            // every lane bounds its own work; a lane that is still running long after that (a library that
+            // spins inside one call, say) is left behind on its thread so that the remaining lanes - one of
+            // which may well name the reason - still run and the report still gets written
+            let cap = if ctx.quick() { 150 } else { ctx.lane_cap_s.unwrap_or(600) * 2 + 300 };
+            let (txr, rxr) = std::sync::mpsc::channel();
+            let c2 = ctx.clone();
+            let _ = std::thread::Builder::new().stack_size(32 << 20).spawn(move || {
+                let rep = f(&c2);
+                let _ = txr.send(rep.to_json(name));
+            });
+            match rxr.recv_timeout(std::time::Duration::from_secs(cap)) {
+                Ok(j) => j,
+                Err(_) => {
+                    let mut rep = Report::new();
+                    rep.harness_error(format!("lane {} was still running {} s after it was started (its own budget is a fraction of that); left behind", name, cap));
+                    rep.to_json(name)
+                }
+            }
+        };
         j["wall_s"] = json!(t.elapsed().as_secs_f64());
         out.push(j);
     }
